@@ -965,8 +965,20 @@ func c14BackToBack(c *sim.RunCtx) {
 			objs[i].Data = data
 		}
 	}
+	// half of the runs spread the objects over several instance names and
+	// digest functions, and their existence checks ask about several objects
+	// at once: the client has to split such a set into one request per
+	// (instance name, digest function) and merge the answers
+	multi := t.Chance(1, 2)
 	for i := range objs {
-		objs[i].D = RefDigest("inst", fn, objs[i].Data)
+		inst, f := "inst", fn
+		if multi {
+			inst = []string{"inst", "inst/sub", "other", ""}[t.Choose(4)]
+			if t.Chance(1, 2) {
+				f = AllDigestFunctions[t.Choose(len(AllDigestFunctions))]
+			}
+		}
+		objs[i].D = RefDigest(inst, f, objs[i].Data)
 	}
 	clients := 1 + t.Choose(3)
 	var plans [][][2]int
@@ -1017,12 +1029,54 @@ func c14BackToBack(c *sim.RunCtx) {
 			ops := plans[ci]
 			s.Go(fmt.Sprintf("client%d", ci), func() {
 				defer func() { done++ }()
-				for _, o := range ops {
+				for oi, o := range ops {
 					if c.Failed() {
 						return
 					}
 					ob := objs[o[1]]
 					inj0 := injected
+					if o[0] == 2 && multi && (oi+o[1])%3 != 0 {
+						// an existence check over several objects (objects are only
+						// ever added, so: held before the call => not reported missing,
+						// not held after the call => reported missing, nothing else reported)
+						n := 2 + (oi*7+o[1])%(len(objs)-1)
+						sb := digest.NewSetBuilder(n)
+						var asked []int
+						for k := 0; k < n; k++ {
+							j := (o[1] + k) % len(objs)
+							asked = append(asked, j)
+							sb.Add(objs[j].D)
+						}
+						hadBefore := map[int]bool{}
+						for _, j := range asked {
+							hadBefore[j] = backend.Has(objs[j].D)
+						}
+						missing, err := ba.FindMissing(ctx, sb.Build())
+						c.Count("probe_b2b_find_multi", 1)
+						if err != nil {
+							if injected == inj0 {
+								c.Fail("spurious-error", "FindMissing over %v failed with %v [%s]", asked, err, desc)
+							}
+							continue
+						}
+						reported := map[string]bool{}
+						for _, d := range missing.Items() {
+							reported[d.GetKey(digest.KeyWithInstance)] = true
+						}
+						for _, j := range asked {
+							k := objs[j].D.GetKey(digest.KeyWithInstance)
+							if reported[k] && hadBefore[j] {
+								c.Fail("present-reported-missing", "FindMissing over objects %v reports o%d missing although the backend held it before the call [%s]", asked, j, desc)
+							} else if !reported[k] && !backend.Has(objs[j].D) {
+								c.Fail("absent-reported-present", "FindMissing over objects %v reports o%d present although the backend lacks it [%s]", asked, j, desc)
+							}
+							delete(reported, k)
+						}
+						if len(reported) > 0 {
+							c.Fail("find-missing-wrong-answer", "FindMissing over objects %v reports digests that were not asked about: %v [%s]", asked, reported, desc)
+						}
+						continue
+					}
 					switch o[0] {
 					case 0:
 						src := sim.NewChunkSource("up", &sim.SrcScript{Data: ob.Data, Cuts: []int{len(ob.Data) / 2}, ErrAt: -1})
